@@ -684,8 +684,8 @@ func (il *inliner) stmtEdit(stmt ast.Stmt, file *ast.File) (string, bool) {
 			il.notes = append(il.notes, fmt.Sprintf("call of %s not inlined: %s", funcObjName(fn), why))
 			return "", false
 		}
-		il.n++
-		id := il.n
+		inlineSeq++
+		id := inlineSeq
 		sh := il.shapeOf(fd, id)
 		if sh.namedRes && len(defers) > 0 {
 			il.notes = append(il.notes, fmt.Sprintf("call of %s not inlined: named results with defer", funcObjName(fn)))
@@ -713,8 +713,12 @@ func (il *inliner) stmtEdit(stmt ast.Stmt, file *ast.File) (string, bool) {
 		if !ok {
 			return "", false
 		}
+		out := assemble(pre, block, results, len(sh.results))
+		if out == "" {
+			return "", false
+		}
 		il.inlinedAll[fn]++
-		return assemble(pre, block, results, len(sh.results)), true
+		return out, true
 	}
 	simple := func(s ast.Stmt) (string, bool) {
 		switch x := s.(type) {
@@ -749,6 +753,25 @@ func (il *inliner) stmtEdit(stmt ast.Stmt, file *ast.File) (string, bool) {
 			return t, true
 		}
 	case *ast.IfStmt:
+		if x.Init == nil {
+			// `if h(a) {` / `if !h(a) {` with a fresh multi-statement predicate: hoist the call
+			cond, neg := ast.Unparen(x.Cond), ""
+			if u, ok := cond.(*ast.UnaryExpr); ok && u.Op == token.NOT {
+				cond, neg = ast.Unparen(u.X), "!"
+			}
+			if fn, call := calleeOf(cond); fn != nil {
+				file := il.fset.Position(x.Pos()).Filename
+				src := il.src[file]
+				bs, be := il.fset.Position(x.Body.Pos()).Offset, il.fset.Position(x.End()).Offset
+				rest := string(src[bs:be])
+				return try(fn, call, false, func(pre, block, results string, n int) string {
+					if n != 1 {
+						return ""
+					}
+					return "{ " + pre + block + "\nif " + neg + results + " " + rest + " }"
+				})
+			}
+		}
 		if x.Init != nil {
 			t, ok := simple(x.Init)
 			if ok && t != "" {
@@ -1069,6 +1092,9 @@ func inlinedView(P *Prog) (*Prog, []string) {
 	}
 	return last, notes
 }
+
+// inlineSeq numbers the expansions across rounds (names of temporaries and labels stay unique).
+var inlineSeq int
 
 // quietView: no progress lines (seeded self-test).
 var quietView bool
